@@ -538,6 +538,10 @@ type c05World struct {
 
 	modSeq int
 
+	// what the accounts of the batch staged last must look like once that
+	// staging is applied (nil = nothing staged by a successful sign)
+	stagedExpect map[[33]byte]*account.Account
+
 	// oracle ghost: the batch of the most recent successful
 	// OrderMatchValidate (nil after a successful finalize)
 	lastOK *order.Batch
@@ -641,8 +645,8 @@ func newC05World(r *Run, c *c05Case) (*c05World, error) {
 		if err != nil {
 			return nil, err
 		}
-		acctToks = append(acctToks, fmt.Sprintf("%d:%d:%d:%d", a.id,
-			c05Outpoint(w, acct.OutPoint), v, c05Out(w, out)))
+		acctToks = append(acctToks, fmt.Sprintf("%d:%d:%d:%d:%d", a.id,
+			c05Outpoint(w, acct.OutPoint), v, c05Out(w, out), acct.Expiry))
 
 		// our order: an ask of 1000 units spending from the account
 		kit := order.NewKit(a.nonce)
@@ -771,7 +775,8 @@ type c05Prop struct {
 	node   int
 	variant string // honest | noinput:<k> | badver | badheight | badbal | nochan | nosnap
 	up     int    // account upgraded to taproot in this batch (0 = none)
-	ext    int    // account whose expiry the auctioneer extends in this batch (0 = none)
+	ext    int    // account whose expiry the auctioneer changes in this batch (0 = none)
+	extd   int    // by how much (may be negative: the verifier only bounds NewExpiry from above)
 	extra  int    // value of an extra (auctioneer) output: varies the tx between re-proposals
 }
 
@@ -901,7 +906,7 @@ func (w *c05World) buildBatch(p *c05Prop) (*order.Batch, string, bool, error) {
 		}
 		if p.ext == k {
 			// the auctioneer extends the account (a lease outliving it)
-			diff.NewExpiry = acct.Expiry + 1000
+			diff.NewExpiry = uint32(int(acct.Expiry) + p.extd)
 		}
 		if p.variant == "badbal" && k == p.accts[0] {
 			diff.EndingBalance++
@@ -935,7 +940,7 @@ func (w *c05World) buildBatch(p *c05Prop) (*order.Batch, string, bool, error) {
 			}
 		}
 		batch.AccountDiffs = append(batch.AccountDiffs, diff)
-		diffToks = append(diffToks, fmt.Sprintf("%d:%s:%d:%s", a.id, newOp, diff.NewVersion, newOut))
+		diffToks = append(diffToks, fmt.Sprintf("%d:%s:%d:%s:%d", a.id, newOp, diff.NewVersion, newOut, diff.NewExpiry))
 	}
 	if p.id%2 == 0 {
 		tx.AddTxIn(auctIn)
@@ -1073,12 +1078,19 @@ func (w *c05World) exec(c *c05Case) {
 			p.node, _ = strconv.Atoi(kv["node"])
 			p.up, _ = strconv.Atoi(kv["up"])
 			p.ext, _ = strconv.Atoi(kv["ext"])
+			p.extd = 1000
+			if v, ok := kv["extd"]; ok {
+				p.extd, _ = strconv.Atoi(v)
+			}
 			p.extra, _ = strconv.Atoi(kv["extra"])
 			if p.node < 1 || p.node > 3 || len(p.accts) == 0 {
 				continue
 			}
 			if p.ext != 0 {
 				r.Count("prop/extends-account")
+				if p.extd < 0 {
+					r.Count("prop/shortens-account-expiry")
+				}
 			}
 			batch, line, _, err := w.buildBatch(p)
 			if err != nil {
@@ -1127,6 +1139,22 @@ func (w *c05World) exec(c *c05Case) {
 			if res == "ok" {
 				w.lastOK = nil
 				extra = " accts=" + w.acctRows()
+				// the staged updates are what gets applied
+				for raw, exp := range w.stagedExpect {
+					a := w.acctByRaw(raw)
+					got, err := w.db.Account(a.pub)
+					if err != nil {
+						bad(fmt.Sprintf("account %d unreadable after the staged batch was applied: %v", a.id, err),
+							"C05/staged-content")
+						continue
+					}
+					if what := c05AcctDiff(got, exp); what != "" {
+						bad(fmt.Sprintf("account %d after applying the staged batch does not match the verified batch: %s", a.id, what),
+							"C05/staged-content")
+					}
+					r.Count("finalize/applied-row-checked")
+				}
+				w.stagedExpect = nil
 			}
 			mf := 0
 			if kv["mf"] == "1" {
@@ -1138,6 +1166,7 @@ func (w *c05World) exec(c *c05Case) {
 			// what fundingManager.DeletePendingBatch does when a new
 			// proposal arrives while a batch is pending
 			err := w.db.DeletePendingBatch()
+			w.stagedExpect = nil
 			res := "ok"
 			if err != nil {
 				res = "err"
@@ -1450,8 +1479,10 @@ func (w *c05World) execSign(c *c05Case, kv map[string]string,
 		r.Count("sign/reopen-check")
 		if err := w.reopen(); err != nil {
 			r.Notes = append(r.Notes, "reopen: "+err.Error())
-		} else if d2, _ := w.dbTok(); d2 != dbAfter {
+		} else if d2, snap2 := w.dbTok(); d2 != dbAfter {
 			bad("staged batch not durable across close/reopen: "+dbAfter+" -> "+d2, "C05/not-durable")
+		} else if snap2 != nil {
+			w.checkStaged(lb, snap2, bad)
 		}
 	}
 	// (2) each signature validly spends the account's current output in
@@ -1588,9 +1619,14 @@ func (w *c05World) rowTokens(pending *order.Batch, snap *clientdb.LocalBatchSnap
 	var rows []string
 	for _, d := range pending.AccountDiffs {
 		a := w.acctByRaw(d.AccountKeyRaw)
-		st, ok := snap.Accounts[d.AccountKeyRaw]
-		if a == nil || !ok {
+		if a == nil {
 			rows = append(rows, "?")
+			continue
+		}
+		// read back from the committed pending-accounts bucket
+		st, err := w.db.VerifC05PendingAccount(d.AccountKeyRaw[:])
+		if err != nil {
+			rows = append(rows, fmt.Sprintf("%d:?", a.id))
 			continue
 		}
 		out := "-"
@@ -1599,7 +1635,7 @@ func (w *c05World) rowTokens(pending *order.Batch, snap *clientdb.LocalBatchSnap
 				out = strconv.Itoa(c05Out(w, o))
 			}
 		}
-		rows = append(rows, fmt.Sprintf("%d:%d:%d:%s", a.id, c05Outpoint(w, st.OutPoint), st.Version, out))
+		rows = append(rows, fmt.Sprintf("%d:%d:%d:%s:%d", a.id, c05Outpoint(w, st.OutPoint), st.Version, out, st.Expiry))
 	}
 	return c05Csv(rows)
 }
@@ -1612,75 +1648,73 @@ func (w *c05World) rowTokens(pending *order.Batch, snap *clientdb.LocalBatchSnap
 func (w *c05World) checkStaged(lb *order.Batch, snap *clientdb.LocalBatchSnapshot, bad func(what, key string)) {
 	r := w.r
 	txid := lb.BatchTX.TxHash()
+	w.stagedExpect = map[[33]byte]*account.Account{}
 	for _, d := range lb.AccountDiffs {
 		a := w.acctByRaw(d.AccountKeyRaw)
-		st, ok := snap.Accounts[d.AccountKeyRaw]
 		pre, err := w.db.Account(a.pub) // the main bucket is untouched by staging
-		if !ok || err != nil {
+		if err != nil {
 			continue
 		}
-		fail := func(what string) {
-			bad(fmt.Sprintf("staged update of account %d does not match the verified batch: %s", a.id, what),
-				"C05/staged-content")
-		}
-		if st.Value != d.EndingBalance {
-			fail(fmt.Sprintf("value %d, ending balance %d", st.Value, d.EndingBalance))
-		}
-		if st.LatestTx == nil || st.LatestTx.TxHash() != txid {
-			fail("latest tx is not the batch tx")
-		}
-		if st.HeightHint != lb.HeightHint {
-			fail("height hint")
-		}
+		// what the verified batch says this account looks like afterwards
+		exp := pre.Copy()
+		exp.Value = d.EndingBalance
+		exp.HeightHint = lb.HeightHint
+		exp.LatestTx = lb.BatchTX
 		if d.EndingState == auctioneerrpc.AccountDiff_OUTPUT_RECREATED {
 			r.Count("staged/recreated")
-			if st.State != account.StatePendingBatch {
-				fail(fmt.Sprintf("state %v", st.State))
-			}
-			want := wire.OutPoint{Hash: txid, Index: uint32(d.OutpointIndex)}
-			if st.OutPoint != want {
-				fail(fmt.Sprintf("outpoint %v, want %v", st.OutPoint, want))
-			}
-			wantExpiry := pre.Expiry
+			exp.State = account.StatePendingBatch
+			exp.OutPoint = wire.OutPoint{Hash: txid, Index: uint32(d.OutpointIndex)}
+			exp.BatchKey = poolscript.IncrementKey(pre.BatchKey)
 			if d.NewExpiry != 0 {
-				wantExpiry = d.NewExpiry
+				exp.Expiry = d.NewExpiry
 			}
-			if st.Expiry != wantExpiry {
-				fail(fmt.Sprintf("expiry %d, want %d", st.Expiry, wantExpiry))
-			}
-			wantVer := pre.Version
-			if d.NewVersion > wantVer {
-				wantVer = d.NewVersion
-			}
-			if st.Version != wantVer {
-				fail(fmt.Sprintf("version %d, want %d", st.Version, wantVer))
-			}
-			if !st.BatchKey.IsEqual(poolscript.IncrementKey(pre.BatchKey)) {
-				fail("batch key is not the stored key incremented once")
-			}
-			// the decisive one: the staged account must describe the
-			// output the batch transaction creates for it
-			o, err := st.Output()
-			txo := lb.BatchTX.TxOut[d.OutpointIndex]
-			if err != nil || o.Value != txo.Value || !bytes.Equal(o.PkScript, txo.PkScript) {
-				fail("its script/value is not the output of the batch tx at its staged outpoint")
+			if d.NewVersion > exp.Version {
+				exp.Version = d.NewVersion
 			}
 		} else {
 			r.Count("staged/closed")
-			if st.State != account.StatePendingClosed {
-				fail(fmt.Sprintf("state %v", st.State))
-			}
-			if st.OutPoint != pre.OutPoint || !st.BatchKey.IsEqual(pre.BatchKey) ||
-				st.Expiry != pre.Expiry || st.Version != pre.Version {
+			exp.State = account.StatePendingClosed
+		}
+		w.stagedExpect[d.AccountKeyRaw] = exp
 
-				fail("a used-up account must stay on the output the batch spends")
+		// the staged update as read back from the committed database
+		// (pending-accounts bucket) and as recorded in the snapshot
+		fromDB, err := w.db.VerifC05PendingAccount(d.AccountKeyRaw[:])
+		if err != nil {
+			bad(fmt.Sprintf("staged update of account %d cannot be read back from the database after the commit: %v", a.id, err),
+				"C05/staged-content")
+			continue
+		}
+		srcs := map[string]*account.Account{"db": fromDB}
+		if st, ok := snap.Accounts[d.AccountKeyRaw]; ok {
+			srcs["snapshot"] = st
+		}
+		for name, st := range srcs {
+			if what := c05AcctDiff(st, exp); what != "" {
+				bad(fmt.Sprintf("staged update of account %d (%s) does not match the verified batch: %s", a.id, name, what),
+					"C05/staged-content")
+			}
+			if d.EndingState == auctioneerrpc.AccountDiff_OUTPUT_RECREATED {
+				// the decisive one: the staged account must describe
+				// the output the batch transaction creates for it
+				o, err := st.Output()
+				txo := lb.BatchTX.TxOut[d.OutpointIndex]
+				if err != nil || o.Value != txo.Value || !bytes.Equal(o.PkScript, txo.PkScript) {
+					bad(fmt.Sprintf("staged update of account %d (%s): its script/value is not the output of the batch tx at its staged outpoint",
+						a.id, name), "C05/staged-content")
+				}
 			}
 		}
 	}
 	for n, ms := range lb.MatchedOrders {
-		so, ok := snap.Orders[n]
 		pre, err := w.db.GetOrder(n)
-		if !ok || err != nil {
+		if err != nil {
+			continue
+		}
+		so, err := w.db.VerifC05PendingOrder(n)
+		if err != nil {
+			bad(fmt.Sprintf("staged update of order %x cannot be read back from the database after the commit: %v", n[:2], err),
+				"C05/staged-content")
 			continue
 		}
 		left := pre.Details().UnitsUnfulfilled
@@ -1700,6 +1734,33 @@ func (w *c05World) checkStaged(lb *order.Batch, snap *clientdb.LocalBatchSnapsho
 				"C05/staged-content")
 		}
 	}
+}
+
+// c05AcctDiff names the first field in which a stored account differs from
+// the expected one ("" = none).
+func c05AcctDiff(st, exp *account.Account) string {
+	switch {
+	case st.Value != exp.Value:
+		return fmt.Sprintf("value %d, want %d", st.Value, exp.Value)
+	case st.State != exp.State:
+		return fmt.Sprintf("state %v, want %v", st.State, exp.State)
+	case st.OutPoint != exp.OutPoint:
+		return fmt.Sprintf("outpoint %v, want %v", st.OutPoint, exp.OutPoint)
+	case st.Expiry != exp.Expiry:
+		return fmt.Sprintf("expiry %d, want %d", st.Expiry, exp.Expiry)
+	case st.Version != exp.Version:
+		return fmt.Sprintf("version %d, want %d", st.Version, exp.Version)
+	case !st.BatchKey.IsEqual(exp.BatchKey):
+		return "batch key is not the expected one (stored key incremented exactly once iff re-created)"
+	case !st.TraderKey.PubKey.IsEqual(exp.TraderKey.PubKey) || !st.AuctioneerKey.IsEqual(exp.AuctioneerKey) ||
+		st.Secret != exp.Secret:
+		return "keys / secret"
+	case st.HeightHint != exp.HeightHint:
+		return fmt.Sprintf("height hint %d, want %d", st.HeightHint, exp.HeightHint)
+	case st.LatestTx == nil || exp.LatestTx == nil || st.LatestTx.TxHash() != exp.LatestTx.TxHash():
+		return "latest tx is not the batch tx"
+	}
+	return ""
 }
 
 // sigTokens renders the released signatures as the messages they are over:
@@ -2020,8 +2081,12 @@ func c05Gen(r *Run) *c05Case {
 			if r.Rng.Intn(3) == 0 {
 				ext = accts[r.Rng.Intn(len(accts))]
 			}
-			c.Cmds = append(c.Cmds, fmt.Sprintf("prop id=%d accts=%s node=%d var=%s up=%d ext=%d extra=%d",
-				id, c05JoinInts(accts), node, variant, up, ext, r.Rng.Intn(1000)))
+			extd := 1000
+			if r.Rng.Intn(3) == 0 {
+				extd = -100 // a NewExpiry below the stored expiry is accepted by the verifier as well
+			}
+			c.Cmds = append(c.Cmds, fmt.Sprintf("prop id=%d accts=%s node=%d var=%s up=%d ext=%d extd=%d extra=%d",
+				id, c05JoinInts(accts), node, variant, up, ext, extd, r.Rng.Intn(1000)))
 			if variant == "honest" || strings.HasPrefix(variant, "noinput") || variant == "nosnap" {
 				curID = id
 				curAccts = accts
